@@ -3,6 +3,7 @@ package sym
 import (
 	"fmt"
 	"go/types"
+	"hash/fnv"
 	"reflect"
 	"strings"
 	"unicode/utf8"
@@ -328,15 +329,104 @@ func (e *Engine) marshalToken(st *State, th *Thread, v Value, codec string) Valu
 	snap := &Snap{T: t, V: e.snapshot(st, val, t), Codec: codec}
 	e.snapCodec = ""
 	id := e.newObjID(st, th, codec+".Marshal")
-	tok := term.Var(fmt.Sprintf("token!%d", id), term.BV(8))
+	// the token byte is named after the allocation AND the contents it stands for, so that the byte value alone
+	// identifies the snapshot wherever it is copied to (buffers, message copies)
+	hsh := fnv.New64a()
+	hsh.Write([]byte(snap.T.String() + "|" + codec + "|" + snapSig(snap.V)))
+	tok := term.Var(fmt.Sprintf("token!%d!%x", id, hsh.Sum64()), term.BV(8))
+	e.snaps.Store(tok, snap)
+	// an opaque byte: not ASCII (never white space, never a JSON delimiter)
+	st.assume(term.BVCmp(term.OpULe, term.BVC(8, 0x80), tok))
 	st.setObj(id, &Object{Kind: OMem, Cells: []Value{tok}, Site: codec + " token", Snap: snap, ep: st.ep})
 	return Slice{Obj: id, Len: 1, Cap: 1}
 }
 
+// snapSig renders a snapshot value completely (terms by their interned identity).
+func snapSig(v Value) string {
+	switch x := v.(type) {
+	case *term.Term:
+		return fmt.Sprintf("t%d", x.ID)
+	case SnapSlice:
+		if x.Nil {
+			return "[nil]"
+		}
+		out := "["
+		for _, el := range x.Elems {
+			out += snapSig(el) + ","
+		}
+		return out + "]"
+	case SnapMap:
+		if x.Nil {
+			return "{nil}"
+		}
+		out := "{"
+		for _, en := range x.Ents {
+			out += snapSig(en.K) + ":" + snapSig(en.V) + "?" + fmt.Sprintf("t%d", en.G.ID) + ","
+		}
+		return out + "}"
+	case SnapPtr:
+		if x.Nil {
+			return "&nil"
+		}
+		return "&" + snapSig(x.Elem)
+	case Struct:
+		out := "("
+		for _, el := range x {
+			out += snapSig(el) + ","
+		}
+		return out + ")"
+	case Iface:
+		if x.T == nil {
+			return "iface(nil)"
+		}
+		return "iface(" + x.T.String() + ":" + snapSig(x.V) + ")"
+	case nil:
+		return "<none>"
+	}
+	return showValue(v)
+}
+
+// tokenAt returns the snapshot whose token byte is stored in cell i of the slice.
+func (e *Engine) tokenAt(st *State, sl Slice, i int) *Snap {
+	if sl.Obj == 0 || i >= sl.Len {
+		return nil
+	}
+	c, ok := st.obj(sl.Obj).Cells[sl.Off+i].(*term.Term)
+	if !ok {
+		return nil
+	}
+	if s, ok := e.snaps.Load(c); ok {
+		return s.(*Snap)
+	}
+	return nil
+}
+
+func isJSONSpace(v Value) bool {
+	t, ok := v.(*term.Term)
+	if !ok || !t.IsConst() {
+		return false
+	}
+	switch t.U {
+	case ' ', '\t', '\r', '\n':
+		return true
+	}
+	return false
+}
+
+// unmarshalToken decodes data into target. first=false: the whole input must be one value (plus white space), as
+// json.Unmarshal demands; first=true: only the first value is decoded (a json.Decoder), the number of bytes it
+// occupied is returned.
 func (e *Engine) unmarshalToken(st *State, th *Thread, data Value, target Value, codec string) Value {
+	v, _ := e.unmarshalFirst(st, th, data, target, codec, false)
+	return v
+}
+
+func (e *Engine) unmarshalFirst(st *State, th *Thread, data Value, target Value, codec string, first bool) (Value, int) {
 	sl := e.pick(st, data).(Slice)
 	tv := e.pick(st, target).(Iface)
-	malformed := func(why string) Value { return e.opaqueError(codec + ": cannot unmarshal: " + why) }
+	malformed := func(why string) (Value, int) {
+		return e.opaqueError(codec + ": cannot unmarshal: " + why), 0
+	}
 	if tv.T == nil {
 		return malformed("nil target")
 	}
@@ -351,21 +441,35 @@ func (e *Engine) unmarshalToken(st *State, th *Thread, data Value, target Value,
 	if sl.Obj == 0 || sl.Len == 0 {
 		return malformed("empty input")
 	}
-	o := st.obj(sl.Obj)
-	if o.Snap == nil || sl.Off != 0 || o.Snap.Codec != codec {
+	start := 0
+	if codec == "json" {
+		for start < sl.Len && isJSONSpace(st.obj(sl.Obj).Cells[sl.Off+start]) {
+			start++
+		}
+	}
+	snap := e.tokenAt(st, sl, start)
+	if snap == nil || snap.Codec != codec {
 		return malformed("input is not " + codec)
+	}
+	used := start + 1
+	if !first {
+		for i := used; i < sl.Len; i++ {
+			if codec != "json" || !isJSONSpace(st.obj(sl.Obj).Cells[sl.Off+i]) {
+				return malformed("invalid data after the top-level value")
+			}
+		}
 	}
 	et := pt.Elem()
 	// unmarshalling into *T where the target itself is a pointer type (**T): allocate
-	if !types.Identical(stripPtr(et), o.Snap.T) {
-		return malformed(fmt.Sprintf("value of type %s into %s", o.Snap.T, et))
+	if !types.Identical(stripPtr(et), snap.T) {
+		return malformed(fmt.Sprintf("value of type %s into %s", snap.T, et))
 	}
 	if _, isPtr := et.Underlying().(*types.Pointer); isPtr {
 		abort("UNMODELLED", "unmarshal into pointer-to-pointer")
 	}
 	cur := e.load(st, p, et)
-	e.store(st, p, et, e.restore(st, th, o.Snap.V, et, cur, codec))
-	return Iface{}
+	e.store(st, p, et, e.restore(st, th, snap.V, et, cur, codec))
+	return Iface{}, used
 }
 
 func init() {
@@ -376,6 +480,11 @@ func init() {
 		}
 		I["encoding/json.Unmarshal"] = func(e *Engine, st *State, th *Thread, fn *ssa.Function, a []Value, in *ssa.Call) Value {
 			return e.unmarshalToken(st, th, a[0], a[1], "json")
+		}
+		// the first JSON value of a byte string (json.Decoder): (bytes consumed, error)
+		I[ModulePath+"/zzverif/models.jsonDecodeFirst"] = func(e *Engine, st *State, th *Thread, fn *ssa.Function, a []Value, in *ssa.Call) Value {
+			v, used := e.unmarshalFirst(st, th, a[0], a[1], "json", true)
+			return Tuple{term.BVC(64, uint64(used)), v}
 		}
 	})
 }
